@@ -3,10 +3,12 @@ package modes
 import (
 	"bufio"
 	"context"
+	"crypto/tls"
 	"encoding/json"
 	"fmt"
 	"net"
 	"strings"
+	"sync/atomic"
 	"time"
 
 	lime "github.com/takenet/lime-go"
@@ -18,7 +20,13 @@ import (
 // TLS-capable TCP listener — against raw clients that skip, refuse or accept the negotiation.
 // Everything the server writes before a TLS handshake is cleartext and is read as such.
 func c10BuilderCases(e *Env) error {
-	for _, behaviour := range []string{"skip-to-credentials", "select-none", "select-tls", "library-none-selector"} {
+	for _, behaviour := range []string{"skip-to-credentials", "select-none", "select-tls", "library-none-selector",
+		// the selection and the credentials in one cleartext write, then the TLS handshake and silence: what the
+		// server had read ahead before the upgrade was not protected by it and must not be used
+		"select-tls-pipelined",
+		// a second, in-process listener whose connections cannot provide TLS is served first: what was decided
+		// for that connection must not carry over to the TLS-capable one
+		"inproc-first-skip-to-credentials", "inproc-first-select-tls"} {
 		e.Rep.Eval()
 		e.Rep.Count("builder-case=" + behaviour)
 		msg, err := c10BuilderCase(behaviour)
@@ -49,6 +57,12 @@ func c10BuilderCase(behaviour string) (string, error) {
 		}).
 		Register(func(_ context.Context, n lime.Node, _ *lime.ServerChannel) (lime.Node, error) { return n, nil }).
 		ListenTCP(addr, &lime.TCPConfig{TLSConfig: srvTLS})
+	inprocFirst := strings.HasPrefix(behaviour, "inproc-first-")
+	inAddr := lime.InProcessAddr(fmt.Sprintf("verif-c10-%d", atomic.AddInt64(&srvSeq, 1)))
+	if inprocFirst {
+		behaviour = strings.TrimPrefix(behaviour, "inproc-first-")
+		b.ListenInProcess(inAddr)
+	}
 	srv := b.Build()
 	done := make(chan error, 1)
 	go func() { done <- srv.ListenAndServe() }()
@@ -71,6 +85,33 @@ func c10BuilderCase(behaviour string) (string, error) {
 		return "", fmt.Errorf("c10 builder case: dial: %w", err)
 	}
 	defer conn.Close()
+	if inprocFirst {
+		// the first connection the server ever handles is an in-process one
+		var it lime.Transport
+		for i := 0; i < 200; i++ {
+			it, err = lime.DialInProcess(inAddr, 1)
+			if err == nil {
+				break
+			}
+			time.Sleep(5 * time.Millisecond)
+		}
+		if err != nil {
+			return "", fmt.Errorf("c10 builder case: in-process dial: %w", err)
+		}
+		ic := lime.NewClientChannel(it, 1)
+		ictx, icancel := context.WithTimeout(context.Background(), 3*time.Second)
+		_, _ = ic.EstablishSession(ictx, lime.NoneCompressionSelector, lime.NoneEncryptionSelector,
+			lime.Identity{Name: "bob", Domain: "verif.local"},
+			func([]lime.AuthenticationScheme, lime.Authentication) lime.Authentication {
+				return &lime.PlainAuthentication{Password: "cHc="}
+			}, "home")
+		icancel()
+		go ic.Close()
+		// its authentication, if any, is not the TCP client's
+		for len(authCalls) > 0 {
+			<-authCalls
+		}
+	}
 	if behaviour == "library-none-selector" {
 		ct := lime.NewTCPTransportFromConn(conn, false, &lime.TCPConfig{TLSConfig: cliTLS})
 		cc := lime.NewClientChannel(ct, 1)
@@ -139,6 +180,9 @@ func c10BuilderCase(behaviour string) (string, error) {
 		send(fmt.Sprintf(`{"id":%q,"state":"negotiating","compression":"none","encryption":"none"}`, id))
 	case "select-tls":
 		send(fmt.Sprintf(`{"id":%q,"state":"negotiating","compression":"none","encryption":"tls"}`, id))
+	case "select-tls-pipelined":
+		send(fmt.Sprintf(`{"id":%q,"state":"negotiating","compression":"none","encryption":"tls"}`, id) + "\n" +
+			fmt.Sprintf(`{"id":%q,"from":"alice@verif.local/home","state":"authenticating","scheme":"plain","authentication":{"password":"cHc="}}`, id))
 	}
 	for i := 0; i < 4; i++ {
 		m, err = readSes()
@@ -153,6 +197,20 @@ func c10BuilderCase(behaviour string) (string, error) {
 		}
 		if behaviour == "select-tls" {
 			break // the confirmation; what follows is the TLS handshake
+		}
+		if behaviour == "select-tls-pipelined" {
+			// the confirmation: the client does its TLS handshake and then says nothing more
+			conn.SetDeadline(time.Now().Add(5 * time.Second))
+			tc := tls.Client(conn, cliTLS)
+			if herr := tc.Handshake(); herr != nil {
+				return "", nil // no TLS, no session: fail closed
+			}
+			select {
+			case <-authCalls:
+				return "the authenticator was called with credentials that were sent in cleartext, before the TLS handshake (the client sent nothing over TLS)", nil
+			case <-time.After(500 * time.Millisecond):
+			}
+			return "", nil
 		}
 	}
 	select {
